@@ -33,6 +33,13 @@ class Maker:
         self.made.append(len(x))
         return {'plain': list(items), 'lst': managed_list(x), 'dct': managed_dict(d)}
 
+    def shared_list(self):
+        # the SAME server-side object wrapped again on every call (several proxies, created independently, for one hosted value)
+        from mpservice.multiprocessing.server_process import managed_list
+        if not hasattr(self, '_shared'):
+            self._shared = []
+        return managed_list(self._shared)
+
     def make_mem(self, size):
         from mpservice.multiprocessing.server_process import managed_memoryblock, MemoryBlock
         return managed_memoryblock(MemoryBlock(size))
